@@ -117,6 +117,21 @@ def run(model, R):
             cur = par
         return None
 
+    # every drawing statement runs for every concept: no continue/break/return guard clause may precede it in the loop body
+    from ..astutil import path_condition
+    for call in node_calls + edge_calls:
+        stmt_ = call
+        while stmt_ in parents and not isinstance(stmt_, ast.stmt):
+            stmt_ = parents[stmt_]
+        pc = path_condition(loop.body, stmt_)
+        if pc is None:
+            continue
+        own = guard_of(call)
+        extra = [(t, pol) for t, pol in pc if not (chain(strip_not(t)[0]) == [cv, own] and pol != strip_not(t)[1])]
+        kind_ = chain(call.func)[1]
+        R.decided(not extra, 'DRAWING', func, call, f'{kind_} statement is reached for every concept (apart from its own label test)',
+                  'no other condition / early continue before it', ' and '.join(('' if pol else 'not ') + src(t) for t, pol in extra),
+                  extra={'consequence': 'concepts that fail the extra condition lose this node / label / edges'} if extra else None)
     label_seen = {}
     cover_families = []
     for call in edge_calls:
@@ -143,7 +158,7 @@ def run(model, R):
             label_seen[lab] = label_seen.get(lab, 0) + 1
         elif kind == 'edge' and len(call.args) >= 2:
             # single cover edge inside a loop over neighbours
-            fam = _edge_family(call.args[0], call.args[1], call, parents, loop, cv, is_name_of, None)
+            fam = _edge_family(call.args[0], call.args[1], call, parents, loop, cv, is_name_of, None, lenv)
             cover_families.append((call, fam, guard_of(call)))
         elif kind == 'edges' and len(call.args) == 1:
             gen = call.args[0]
@@ -153,7 +168,7 @@ def run(model, R):
                 R.unknown('DRAWING', func, call, 'cover edges', f'edges() argument {src(call.args[0])[:60]}')
                 continue
             g = gen.generators[0]
-            fam = _edge_family(gen.elt.elts[0], gen.elt.elts[1], call, parents, loop, cv, is_name_of, g)
+            fam = _edge_family(gen.elt.elts[0], gen.elt.elts[1], call, parents, loop, cv, is_name_of, g, lenv)
             cover_families.append((call, fam, guard_of(call)))
         else:
             R.unknown('DRAWING', func, call, 'edge call', src(call)[:80])
@@ -195,7 +210,7 @@ def run(model, R):
     return __doc__.strip()
 
 
-def _edge_family(a, b, call, parents, loop, cv, is_name_of, gen):
+def _edge_family(a, b, call, parents, loop, cv, is_name_of, gen, lenv=None):
     """('lower'|'upper', var) when (a, b) = (name(concept), name(c)) for c over concept.<x>_neighbors (either order)."""
     # find the neighbour variable and its iterable
     if gen is not None:
@@ -214,11 +229,17 @@ def _edge_family(a, b, call, parents, loop, cv, is_name_of, gen):
             cur = par
         if var is None:
             return None
-    # strip an order-only wrapper: sorted(x, key=...), reversed(x), list(x), tuple(x)
-    while isinstance(it, ast.Call) and isinstance(it.func, ast.Name) and it.func.id in ('sorted', 'reversed', 'list', 'tuple') and it.args:
-        it = it.args[0]
+    # a local bound once in the loop body is replaced by its definition; order-only wrappers are stripped:
+    # sorted(x, key=...), reversed(x), list(x), tuple(x)
+    for _ in range(4):
+        if isinstance(it, ast.Name) and lenv is not None and lenv.single(it.id) is not None:
+            it = lenv.single(it.id)
+        while isinstance(it, ast.Call) and isinstance(it.func, ast.Name) and it.func.id in ('sorted', 'reversed', 'list', 'tuple') and it.args:
+            it = it.args[0]
     c = chain(it)
-    if not (c and len(c) == 2 and c[0] == cv and c[1] in ('lower_neighbors', 'upper_neighbors')):
+    if not (c and len(c) == 2 and c[0] == cv):
+        return None
+    if c[1] not in ('lower_neighbors', 'upper_neighbors'):
         return ('bad', f'neighbours range over {src(it)}')
     if ifs:
         return ('bad', f'neighbours filtered by {src(ifs[0])}: some covers are not drawn')
